@@ -11,6 +11,8 @@ CONSTANTS
   Threads = {"t1"}
   MaxMsgs = 1
   Bodies <- BodiesTiny
+  PopulatedShortcut = FALSE
+  KeyAlias <- NoWide
   RecordHist = FALSE
 INVARIANTS
   IdCidBijective
